@@ -65,6 +65,10 @@ DATE_POOL = ['2020-01-02T03:04:05.678901', '1970-01-01T00:00:00.000000', '1999-1
 
 def rand_float(rng, bounds=None, special=True):
     lo, hi = (None, None) if bounds is None else bounds
+    # the value EXACTLY at a declared bound (the acceptance domain of a bounded field is the closed interval): one draw in four
+    ends = [float(b) for b in (lo, hi) if b is not None]
+    if ends and rng.random() < 0.25:
+        return rng.choice(ends)
     for _ in range(40):
         r = rng.random()
         if r < 0.55:
@@ -92,6 +96,9 @@ def rand_float(rng, bounds=None, special=True):
 
 def rand_int(rng, bounds=None):
     lo, hi = (None, None) if bounds is None else bounds
+    ends = [int(b) for b in (lo, hi) if b is not None]
+    if ends and rng.random() < 0.25:
+        return rng.choice(ends)
     pool = [0, 1, -1, 7, 255, 65536, 2 ** 31 - 1, -2 ** 31, 2 ** 63, -2 ** 63 - 1, 10 ** 30, rng.randint(-10 ** 9, 10 ** 9)]
     ok = [v for v in pool if (lo is None or lo <= v) and (hi is None or v <= hi)]
     if lo is not None:
@@ -556,10 +563,19 @@ def from_xml(cls, b, is_root):
     return cls.from_node(root, xml_ns, ns_key='default' if (xml_ns is not None and 'default' in xml_ns) else None)
 
 
+_tmpdir = [None]
+
+
+def _first_diff(a, b):
+    i = next((k for k in range(min(len(a), len(b))) if a[k] != b[k]), min(len(a), len(b)))
+    return '%d: ...%r vs ...%r' % (i, a[max(0, i - 50):i + 50], b[max(0, i - 50):i + 50])
+
+
 def oracle(cls, x, is_root, urns):
     """the property on the implementation alone; returns (failures, xml bytes per urn variant)"""
     fails = []
     out = {}
+    reser = {}
     for uname, urn in urns:
         step = 'to_xml_bytes'
         try:
@@ -573,12 +589,62 @@ def oracle(cls, x, is_root, urns):
                 fails.append(dict(kind='xml', variant=uname, path=p, what=w, _raw=(ra, rb)))
             step = 'to_xml_bytes of the re-parsed structure'
             b2 = to_xml(y, urn, is_root)
+            reser[uname] = b2
             if b2 != b:
                 i = next((k for k in range(min(len(b), len(b2))) if b[k] != b2[k]), min(len(b), len(b2)))
                 fails.append(dict(kind='xml-stability', variant=uname, path=cls.__name__, _raw=(b, b2),
                                   what=f'serialising the re-parsed structure differs at byte {i}: ...{b[max(0, i - 40):i + 40]!r} vs ...{b2[max(0, i - 40):i + 40]!r}'))
         except Exception as e:
             fails.append(dict(kind='xml-exception', variant=uname, path=cls.__name__, what=f'{step} raised {type(e).__name__}: {str(e)[:300]}'))
+    # the other documented ways in and out must agree with the ones used above: from_node with ns_key left out (documented fallback to the
+    # 'default' entry of xml_ns; the SIO reader calls it so), and - for the top-level types - from_xml_file, to_xml_string(**kw) ==
+    # to_xml_bytes(**kw).decode() for the documented keyword forms, and the parse of what to_xml_string() writes
+    for uname, urn in urns:
+        b = out.get(uname)
+        ref = reser.get(uname)
+        if b is None or ref is None or (not is_root and len(b) % 2):       # every top-level instance, every second one of the others
+            continue
+        try:
+            from sarpy.io.xml.base import parse_xml_from_string
+            root, xml_ns = parse_xml_from_string(b)
+            if xml_ns is not None and 'default' in xml_ns:
+                alt = to_xml(cls.from_node(root, xml_ns), urn, is_root)
+                if alt != ref:
+                    fails.append(dict(kind='xml-entry-point', variant=uname, path=cls.__name__, _raw=(ref, alt),
+                                      what='from_node(root, xml_ns) without ns_key gives another structure than with ns_key=\'default\': serialisations differ at byte ' + _first_diff(ref, alt)))
+            if is_root and _tmpdir[0]:
+                path = os.path.join(_tmpdir[0], 'x.xml')
+                with open(path, 'wb') as fh:
+                    fh.write(b)
+                alt = to_xml(cls.from_xml_file(path), urn, is_root)
+                if alt != ref:
+                    fails.append(dict(kind='xml-entry-point', variant=uname, path=cls.__name__, _raw=(ref, alt),
+                                      what='from_xml_file gives another structure than from_xml_string: serialisations differ at byte ' + _first_diff(ref, alt)))
+        except Exception as e:
+            fails.append(dict(kind='xml-exception', variant=uname, path=cls.__name__, what=f'alternative entry point raised {type(e).__name__}: {str(e)[:300]}'))
+    if is_root:
+        import inspect as _inspect
+        try:
+            tag_default = _inspect.signature(x.to_xml_string).parameters.get('tag')
+            kws = [('no arguments', {})]
+            fu = family_urn(cls)
+            kws.append(('urn', {'urn': fu}))
+            if tag_default is not None and isinstance(tag_default.default, str):
+                kws.append(('tag', {'tag': tag_default.default}))
+            for nm, kw in kws:
+                s_, b_ = x.to_xml_string(**kw), x.to_xml_bytes(**kw)
+                if not isinstance(s_, str) or s_ != b_.decode('utf-8'):
+                    fails.append(dict(kind='xml-string-api', variant=nm, path=cls.__name__,
+                                      what=f'to_xml_string({nm}) is not to_xml_bytes({nm}).decode(): ' + _first_diff(b_, s_.encode('utf-8') if isinstance(s_, str) else b'')))
+            y2 = cls.from_xml_string(x.to_xml_string())
+            diffs = []
+            compare(x, y2, cls.__name__, diffs, xml=True)
+            for p_, w_, ra, rb in diffs:
+                # same family as the byte round trip above (the listed string-edge findings are classified there)
+                fails.append(dict(kind='xml', variant='parse of to_xml_string()', path=p_, what=w_, _raw=(ra, rb)))
+        except Exception as e:
+            fails.append(dict(kind='xml-string-api', variant='reparse', path=cls.__name__,
+                              what=f'to_xml_string() / its parse raised {type(e).__name__}: {str(e)[:300]}'))
     step = 'to_dict'
     try:
         d = x.to_dict()
@@ -1082,7 +1148,7 @@ def foreign_bytes(root, nsdecl):
 
 # ------------------------------------------------------------------------------------------------ classification of known defects
 
-FAMILY = {'xml': 'xml', 'xml-stability': 'xml', 'xml-exception': 'xml', 'dict': 'dict', 'dict-stability': 'dict', 'dict-exception': 'dict',
+FAMILY = {'xml': 'xml', 'xml-stability': 'xml', 'xml-exception': 'xml', 'xml-entry-point': 'xml', 'xml-string-api': 'xml', 'dict': 'dict', 'dict-stability': 'dict', 'dict-exception': 'dict',
           'copy': 'copy', 'copy-exception': 'copy'}
 ALL = ('xml', 'dict', 'copy')
 
@@ -1459,6 +1525,8 @@ def run(tier):
     logging.disable(logging.CRITICAL)
     chk = Check('C05', tier)
     rng = chk.rng
+    import tempfile
+    _tmpdir[0] = tempfile.mkdtemp(dir='/var/tmp', prefix='c05_')
     import tables_xml
     info = tables_xml.generate(os.path.join(VERIF, 'lean', 'SarpyModel', 'Gen', 'XmlTables.lean'))
     classes = info['classes']
@@ -1833,6 +1901,9 @@ def run(tier):
                       {'broken_obligations': broken, 'disagreements': disagreements[:10]}, False)
     if disagreements:
         chk.coverage['disagreement_examples'] = [json.dumps(d, default=str)[:400] for d in disagreements[:5]]
+    import shutil
+    shutil.rmtree(_tmpdir[0], ignore_errors=True)
+    _tmpdir[0] = None
     return chk.finish()
 
 
